@@ -45,6 +45,8 @@ var (
 	ErrInt64UnderflowsUint64 = errors.New("int64 underflows uint64")
 	// ErrFloat64UnderflowsUint64 is returned if when converting an float6464 to a uint64 underflow uint64
 	ErrFloat64UnderflowsUint64 = errors.New("float64 underflows uint64")
+	// ErrDivideByZero is returned if a coin amount is to be distributed over zero shares
+	ErrDivideByZero = errors.New("division by zero")
 )
 
 var maxDecimal decimal.Decimal
@@ -173,6 +175,10 @@ func MinusInt64(c Coin, a int64) (Coin, error) {
 func DistributeCoin(c Coin, a int64) (oCur, bal Coin, err error) {
 	d, err := Int64ToCoin(a)
 	if err != nil {
+		return
+	}
+	if d == 0 {
+		err = ErrDivideByZero
 		return
 	}
 	oCur = c / d
